@@ -2,9 +2,17 @@
 
 Obligations: coq/Properties/C06.v (theorems over coq/Model/Coll.v).
 Correspondence: random operation sequences on the five real collection classes versus the
-extracted Coll model (result of every operation, final member list, final number cache).
+extracted Coll model (result of every operation, final member list, final number cache, final
+problem link of every object, final member list of the other problem's collection).
 Oracle: the property's sentences evaluated literally on the real collection after every op.
+
+The world of one case: objects 0..n-1 of one kind (a few of a wrong class); the collection under test
+(a problem's, or free-standing); a second problem whose collection of the same kind holds the
+`fmembers` (objects linked to a FOREIGN problem; with `qcopy` that second problem is a
+copy.deepcopy of the first, so its members are deep copies of the members); `keys`: objects with one
+key have the same value, so for Surface and Material they are == while their numbers agree.
 """
+import copy
 import json
 import os
 import random
@@ -13,12 +21,13 @@ import sys
 import vlib
 
 KINDS = ["cell", "surface", "material", "transform", "universe"]
+VALUE_EQ_KINDS = ("surface", "material")     # classes that define __eq__ by value
 
 
 # ----------------------------------------------------------------------------
 # real objects
 # ----------------------------------------------------------------------------
-def _mk(kind, oid, number):
+def _mk(kind, key, number):
     import montepy
     from montepy.input_parser.mcnp_input import Input
     from montepy.input_parser.block_type import BlockType
@@ -29,13 +38,13 @@ def _mk(kind, oid, number):
         return c
     if kind == "surface":
         from montepy.surfaces.surface_builder import surface_builder
-        return surface_builder(Input([f"{number} so {oid + 0.5}"], BlockType.SURFACE))
+        return surface_builder(Input([f"{number} so {key + 0.5}"], BlockType.SURFACE))
     if kind == "material":
         from montepy.data_inputs.material import Material
-        return Material(Input([f"m{number} 1001.80c {0.25 + oid}"], BlockType.DATA))
+        return Material(Input([f"m{number} 1001.80c {0.25 + key}"], BlockType.DATA))
     if kind == "transform":
         from montepy.data_inputs.transform import Transform
-        return Transform(Input([f"tr{number} {oid}.5 0 0"], BlockType.DATA))
+        return Transform(Input([f"tr{number} {key}.5 0 0"], BlockType.DATA))
     if kind == "universe":
         from montepy.universe import Universe
         return Universe(number)
@@ -63,6 +72,40 @@ def _exc_name(e):
     return n
 
 
+def load_json(path):
+    with open(path) as fh:
+        return json.load(fh)
+
+
+def norm_case(c):
+    """fill the fields older corpus files do not have"""
+    c = dict(c)
+    n = len(c["nums"])
+    c.setdefault("keys", list(range(n)))
+    c.setdefault("fmembers", [])
+    c.setdefault("qcopy", False)
+    c["ops"] = [tuple(list(o[:1]) + [list(x) if isinstance(x, (list, tuple)) else x for x in o[1:]])
+                for o in c["ops"]]
+    return c
+
+
+def qcopy_ok(case):
+    """the second problem can be made by copy.deepcopy of the first: its members begin with one
+    copy of every member, in order"""
+    m = case["members"]
+    f = case["fmembers"]
+    if not (case.get("qcopy") and case["clink"] and m and len(f) >= len(m)):
+        return False
+    for a, b in zip(m, f):
+        if case["nums"][a] != case["nums"][b] or case["keys"][a] != case["keys"][b] or not case["types"][b]:
+            return False
+    return len(set(f[:len(m)]) | set(m)) == 2 * len(m)
+
+
+def needs_other(case):
+    return bool(case["fmembers"]) or any(o[0] == "fappend" for o in case["ops"])
+
+
 class World:
     """Real-side state for one case."""
 
@@ -71,10 +114,12 @@ class World:
         self.case = case
         kind = case["kind"]
         other = "surface" if kind != "surface" else "cell"
+        n = len(case["nums"])
+        deep = qcopy_ok(case)
+        copies = set(case["fmembers"][:len(case["members"])]) if deep else set()
         self.objs = []
-        for oid, (n, ty) in enumerate(zip(case["nums"], case["types"])):
-            self.objs.append(_mk(kind if ty else other, oid, n))
-        self.index = {id(o): i for i, o in enumerate(self.objs)}
+        for oid, (num, ty, key) in enumerate(zip(case["nums"], case["types"], case["keys"])):
+            self.objs.append(None if oid in copies else _mk(kind if ty else other, key, num))
         if case["clink"]:
             self.problem = montepy.MCNP_Problem("verif_c06")
             self.coll = _coll_of(self.problem, kind)
@@ -83,6 +128,22 @@ class World:
         else:
             self.problem = None
             self.coll = _coll_class(kind)([self.objs[m] for m in case["members"]])
+        self.other = None
+        self.fcoll = None
+        if needs_other(case):
+            if deep:
+                self.other = copy.deepcopy(self.problem)
+                self.fcoll = _coll_of(self.other, kind)
+                for k, oid in enumerate(case["fmembers"][:len(case["members"])]):
+                    self.objs[oid] = self.fcoll._objects[k]
+                rest = case["fmembers"][len(case["members"]):]
+            else:
+                self.other = montepy.MCNP_Problem("verif_c06_other")
+                self.fcoll = _coll_of(self.other, kind)
+                rest = case["fmembers"]
+            for oid in rest:
+                self.fcoll.append(self.objs[oid])
+        self.index = {id(o): i for i, o in enumerate(self.objs)}
 
     def oid(self, obj):
         return self.index.get(id(obj), -1)
@@ -92,6 +153,23 @@ class World:
 
     def members(self):
         return [self.oid(o) for o in self.coll._objects]
+
+    def fmembers(self):
+        return [self.oid(o) for o in self.fcoll._objects] if self.fcoll is not None else list(self.case["fmembers"])
+
+    def links(self):
+        out = []
+        for o in self.objs:
+            p = getattr(o, "_problem", None)
+            if p is None:
+                out.append(0)
+            elif self.problem is not None and p is self.problem:
+                out.append(1)
+            elif self.other is not None and p is self.other:
+                out.append(2)
+            else:
+                out.append(3)
+        return out
 
     def cache(self):
         c = getattr(self.coll, "_NumberedObjectCollection__num_cache")
@@ -146,6 +224,11 @@ class World:
             if k == "slice":
                 r = c[slice(op[1], op[2], op[3])]
                 return "os:" + (",".join(str(self.oid(x)) for x in r._objects) or "-")
+            if k == "fappend":
+                self.fcoll.append(o[op[1]]); return "ok"
+            if k == "slice_append":
+                r = c[slice(op[1], op[2], op[3])]
+                r.append(o[op[4]]); return "ok"
             raise RuntimeError("unknown op " + repr(op))
         except Exception as e:  # noqa
             return "err:" + _exc_name(e)
@@ -160,32 +243,69 @@ def op_text(op):
     return " ".join([k] + [z(x) for x in op[1:]])
 
 
+def wire_keys(case):
+    """== is identity for Cell, Transform, Universe (every object its own class); objects of a wrong
+    class are never compared"""
+    n = len(case["nums"])
+    if case["kind"] in VALUE_EQ_KINDS:
+        return [case["keys"][i] if case["types"][i] else 100000 + i for i in range(n)]
+    return list(range(n))
+
+
 def request_of(case):
     def bl(l):
         return ",".join("1" if x else "0" for x in l) or "-"
-    linked = [bool(case["clink"]) and (i in case["members"]) for i in range(len(case["nums"]))]
+    n = len(case["nums"])
+    links = []
+    for i in range(n):
+        if i in case["fmembers"]:
+            links.append(2)
+        elif case["clink"] and i in case["members"]:
+            links.append(1)
+        else:
+            links.append(0)
     hd = " ".join([
         "1" if case["clink"] else "0",
         ",".join(map(str, case["nums"])) or "-",
-        bl(linked), bl(case["types"]),
+        ",".join(map(str, links)) or "-",
+        bl(case["types"]),
+        ",".join(map(str, wire_keys(case))) or "-",
         ",".join(map(str, case["members"])) or "-",
+        ",".join(map(str, case["fmembers"])) or "-",
     ])
     return hd + " | " + " ; ".join(op_text(o) for o in case["ops"])
 
 
 def run_real(case):
+    """results of all operations | members | number cache | links | members of the other collection"""
     w = World(case)
     outs = [w.apply(op) for op in case["ops"]]
     mem = ",".join(map(str, w.members())) or "-"
     cache = ",".join(f"{k}>{v}" for k, v in w.cache()) or "-"
-    return ";".join(outs) + "|" + mem + "|" + cache
+    links = ",".join(map(str, w.links())) or "-"
+    fmem = ",".join(map(str, w.fmembers())) or "-"
+    return ";".join(outs) + "|" + mem + "|" + cache + "|" + links + "|" + fmem
 
 
-def canon_model(ans):
-    """sort the model's cache rendering by key (Python side is sorted too)"""
+def ghosts_only(obs):
+    """The compared part of the number cache: the entries that point at an object which is NOT a member (the
+    second clause of Inv says there are none).  Which of the members' entries are present depends on which
+    look-ups happened to refresh the cache; no result depends on it (C06_lookup), and a rewrite of the refresh
+    policy is not a defect - the full caches are compared too, but a difference there is only counted."""
+    parts = obs.split("|")
+    if len(parts) != 5:
+        return obs
+    mem = set() if parts[1] == "-" else set(parts[1].split(","))
+    g = [it for it in ([] if parts[2] == "-" else parts[2].split(",")) if it.split(">")[1] not in mem]
+    return "|".join([parts[0], parts[1], ",".join(g) or "-", parts[3], parts[4]])
+
+
+def split_model(ans):
+    """(observable part, positions of SetNum ops outside the premise, positions of Remove ops that were
+    given an equal object which is not the member)"""
     parts = ans.split("|")
-    if len(parts) != 3:
-        return ans
+    if len(parts) != 7:
+        return ans, [], []
     c = parts[2]
     if c != "-":
         items = []
@@ -193,7 +313,25 @@ def canon_model(ans):
             k, v = it.split(">")
             items.append((int(k), int(v)))
         c = ",".join(f"{k}>{v}" for k, v in sorted(items))
-    return parts[0] + "|" + parts[1] + "|" + c
+
+    def ints(s):
+        return [] if s == "-" else [int(x) for x in s.split(",")]
+    return "|".join([parts[0], parts[1], c, parts[3], parts[4]]), ints(parts[5]), ints(parts[6])
+
+
+def canon_model(ans):
+    return split_model(ans)[0]
+
+
+def ask(cases):
+    return vlib.model_ask("Coll", [request_of(c) for c in cases])
+
+
+def inside_premise(case):
+    """the model's verdict on the premise the invariant is claimed under (Coll.setnum_seen =
+    CollProofs.op_ok for SetNum, C06_premise_decided): no member that is not linked to this collection's
+    problem is renumbered onto a number in use"""
+    return not split_model(ask([case])[0])[1]
 
 
 # ----------------------------------------------------------------------------
@@ -203,15 +341,17 @@ def oracle(case):
     """Return None or a dict describing the first violated sentence.  Two passes: look-ups repair the
     number cache of the real collection, so a pass that probes get()/[] after every operation can hide a
     stale-cache defect from the operations that follow; the first pass therefore observes nothing but the
-    objects themselves, the second adds the look-up probes."""
+    objects themselves (and probes once, after the last operation), the second adds the look-up probes."""
     return oracle_pass(case, False) or oracle_pass(case, True)
 
 
 def oracle_pass(case, probe_lookups):
     w = World(case)
     nrange = range(-1, max(case["nums"] + [1]) + 12)
+    last = len(case["ops"]) - 1
     for i, op in enumerate(case["ops"]):
         before_members = w.members()
+        before_f = w.fmembers()
         before_nums = [w.number(j) for j in range(len(w.objs))]
         r = w.apply(op)
         members = w.members()
@@ -223,7 +363,8 @@ def oracle_pass(case, probe_lookups):
             return {"sentence": "an object is a member at most once", "at_op": i, "op": op_text(op),
                     "members": members}
         if r == "err:NumberConflictError":
-            if members != before_members or [w.number(j) for j in range(len(w.objs))] != before_nums:
+            if members != before_members or [w.number(j) for j in range(len(w.objs))] != before_nums \
+                    or w.fmembers() != before_f:
                 return {"sentence": "NumberConflictError leaves the collection unchanged", "at_op": i,
                         "op": op_text(op), "before": [before_members, before_nums],
                         "after": [members, [w.number(j) for j in range(len(w.objs))]]}
@@ -233,8 +374,12 @@ def oracle_pass(case, probe_lookups):
         if op[0] == "next_number" and r.startswith("n:"):
             if int(r[2:]) in nums:
                 return {"sentence": "next_number offers a free number", "at_op": i, "op": op_text(op), "got": r}
+        if op[0] == "append_renumber" and r.startswith("n:"):
+            if nums.count(int(r[2:])) != 1:
+                return {"sentence": "append_renumber gives the object a free number", "at_op": i,
+                        "op": op_text(op), "got": r}
         # look-ups are current
-        for n in (nrange if probe_lookups else ()):
+        for n in (nrange if (probe_lookups or i == last) else ()):
             exp = [m for m in members if w.number(m) == n]
             got = w.coll.get(n)
             g = None if got is None else w.oid(got)
@@ -247,6 +392,16 @@ def oracle_pass(case, probe_lookups):
                 got2 = None
             if got2 != g:
                 return {"sentence": "[] agrees with get", "at_op": i, "op": op_text(op), "n": n}
+        # `in`: Python membership (identity or ==) against the members, nothing else
+        if probe_lookups or i == last:
+            mobjs = [w.objs[m] for m in members]
+            for j, x in enumerate(w.objs):
+                if not case["types"][j]:
+                    continue
+                exp_in = any(m is x or m == x for m in mobjs)
+                if (x in w.coll) != exp_in:
+                    return {"sentence": "obj in collection iff obj equals a member", "at_op": i, "op": op_text(op),
+                            "object": j, "expected": exp_in}
     return None
 
 
@@ -254,48 +409,106 @@ def oracle_pass(case, probe_lookups):
 # generator
 # ----------------------------------------------------------------------------
 OPS_W = [
-    ("append", 10), ("append_renumber", 6), ("extend", 7), ("iadd", 7), ("setitem", 3), ("remove", 6),
+    ("append", 10), ("append_renumber", 6), ("extend", 7), ("iadd", 7), ("setitem", 3), ("remove", 7),
     ("pop", 4), ("del", 5), ("clear", 1), ("setnum", 14), ("get", 8), ("getitem", 4), ("contains", 2),
     ("numbers", 3), ("keys", 1), ("len", 1), ("check_number", 3), ("request_number", 3),
-    ("next_number", 2), ("slice", 3),
+    ("next_number", 2), ("slice", 3), ("fappend", 3), ("slice_append", 2),
 ]
 
 
-def gen_case(rng, idx, freestanding_collisions=False):
+def gen_case(rng, idx):
     kind = KINDS[idx % len(KINDS)]
     clink = rng.random() < 0.75
     n = rng.choice([2, 3, 4, 5, 6, 8, 10])
     hi = rng.choice([3, 4, 6, 9, 15])
     nums = [rng.randint(1, hi) for _ in range(n)]
     types = [rng.random() > 0.08 for _ in range(n)]
+    keys = list(range(n))
+    # objects of equal value: Surface and Material compare by value (== needs equal numbers too)
+    if rng.random() < 0.6:
+        for i in range(1, n):
+            if types[i] and rng.random() < 0.45:
+                j = rng.randrange(i)
+                if types[j]:
+                    keys[i] = keys[j]
+                    if rng.random() < 0.8:
+                        nums[i] = nums[j]
     members = []
     used = set()
     for i in rng.sample(range(n), n):
         if types[i] and nums[i] not in used and rng.random() < 0.6:
             members.append(i)
             used.add(nums[i])
+    # a second problem with its own collection: deep copy of the first, or independent
+    fmembers = []
+    qcopy = False
+    mode = rng.random()
+    if mode < 0.25 and clink and members:
+        qcopy = True
+        for m in members:
+            nums.append(nums[m]); types.append(True); keys.append(keys[m])
+            fmembers.append(len(nums) - 1)
+    if mode < 0.6:
+        fused = set(nums[i] for i in fmembers)
+        for i in rng.sample(range(n), n):
+            if i not in members and types[i] and nums[i] not in fused and rng.random() < 0.5:
+                fmembers.append(i)
+                fused.add(nums[i])
+    n = len(nums)
+    foreign = [i for i in fmembers]
+    twins = [i for i in range(n) if types[i] and any(j != i and keys[j] == keys[i] for j in range(n))]
     nops = rng.choice([1, 2, 3, 5, 8, 12, 20, 40]) if rng.random() < 0.9 else rng.randint(40, 80)
     names = [k for k, _ in OPS_W]
     weights = [w for _, w in OPS_W]
     ops = []
-    # shadow state only used to keep free-standing sequences inside the property's premise
-    sh_nums = list(nums)
-    sh_mem = list(members)
+    typed = [j for j in range(n) if types[j]] or [0]
+
+    def pick_obj():
+        r = rng.random()
+        if foreign and r < 0.25:
+            return rng.choice(foreign)
+        if twins and r < 0.45:
+            return rng.choice(twins)
+        return rng.randrange(n)
+
+    def member_number():
+        pool = [nums[m] for m in members] or nums
+        return rng.choice(pool)
+
+    def equal_pair():
+        """a member (or any object) and another object of the same value"""
+        pairs = [(e, x) for e in (members or typed) for x in typed if x != e and keys[x] == keys[e]]
+        return rng.choice(pairs) if pairs else None
+
     for _ in range(nops):
+        if twins and rng.random() < 0.08:
+            # an object equal to a member stands in for it: the member is renumbered, the equal object follows,
+            # remove() is given the equal object, then the numbers the member had are asked for and re-used
+            pr = equal_pair()
+            if pr:
+                e, x = pr
+                k2 = rng.randint(1, hi + 4)
+                seq = [("setnum", e, k2), ("setnum", x, k2), ("remove", x),
+                       rng.choice([("get", k2), ("getitem", k2), ("slice", k2, k2, None), ("request_number", k2, 1),
+                                   ("setnum", e, nums[e]), ("append", x)]),
+                       rng.choice([("get", nums[e]), ("setnum", e, nums[e]), ("get", k2), ("append", e)]),
+                       ("get", nums[e])]
+                ops.extend(seq[rng.choice([0, 0, 1, 2]):rng.choice([3, 4, 5, 6])])
+                continue
         k = rng.choices(names, weights)[0]
-        o = rng.randrange(n)
-        typed = [j for j in range(n) if types[j]] or [0]
+        o = pick_obj()
         num = rng.randint(0, hi + 2) if rng.random() < 0.9 else rng.randint(-3, hi + 8)
         if k == "append":
             op = (k, o)
         elif k == "append_renumber":
             op = (k, o, rng.choice([1, 1, 1, 2, 3, 5, -1, -2]))
         elif k in ("extend", "iadd"):
-            op = (k, [rng.randrange(n) for _ in range(rng.choice([0, 1, 2, 2, 3, 4]))])
+            op = (k, [pick_obj() for _ in range(rng.choice([0, 1, 2, 2, 3, 4]))])
         elif k == "setitem":
             op = (k, num, o)
         elif k == "remove":
-            op = (k, rng.choice(typed))
+            x = o if types[o] else rng.choice(typed)
+            op = (k, x)
         elif k == "pop":
             op = (k, rng.choice([-1, -1, 0, 1, 2, -2, 5, -7]))
         elif k == "del":
@@ -307,7 +520,7 @@ def gen_case(rng, idx, freestanding_collisions=False):
         elif k in ("get", "getitem", "check_number"):
             op = (k, num)
         elif k == "contains":
-            op = (k, rng.choice(typed))   # == against a foreign class is outside the model
+            op = (k, o if types[o] else rng.choice(typed))   # == against another class is outside the model
         elif k in ("numbers", "keys", "len"):
             op = (k,)
         elif k == "request_number":
@@ -318,39 +531,94 @@ def gen_case(rng, idx, freestanding_collisions=False):
             def b():
                 return None if rng.random() < 0.4 else rng.randint(-1, hi + 3)
             op = (k, b(), b(), rng.choice([None, None, 1, 2, -1, -2, 3, 0]))
+        elif k == "fappend":
+            op = (k, o)
+        elif k == "slice_append":
+            def b2():
+                return None if rng.random() < 0.5 else rng.randint(0, hi + 3)
+            op = (k, b2(), b2(), rng.choice([None, None, 1, 2, -1]), o)
         ops.append(op)
         # probe right after a number changed hands, where a stale cache would show: ask for exactly
         # that number (offered numbers must be free, look-ups must be current)
         if k == "setnum" and rng.random() < 0.5:
             ops.append(rng.choice([("request_number", num, rng.choice([1, 1, 2, 3])), ("get", num),
                                    ("check_number", num), ("get", nums[o])]))
-        elif k in ("extend", "iadd", "append", "append_renumber") and rng.random() < 0.35:
-            cand = op[1][0] if isinstance(op[1], list) and op[1] else (op[1] if isinstance(op[1], int) else None)
-            if cand is not None:
+        elif k in ("extend", "iadd", "append", "append_renumber", "setitem"):
+            cands = op[1] if k in ("extend", "iadd") else [op[2] if k == "setitem" else op[1]]
+            r = rng.random()
+            if cands and r < 0.3:
+                cand = cands[0]
                 ops.append(rng.choice([("request_number", nums[cand], rng.choice([1, 2])), ("get", nums[cand]),
                                        ("next_number", 1)]))
-    return {"kind": kind, "clink": clink, "nums": nums, "types": types, "members": members, "ops": ops}
+            elif cands and r < 0.65:
+                # the object that has just been added is renumbered onto the number of another member:
+                # its setter has to ask THIS collection, whatever the object was linked to before
+                cand = rng.choice(cands)
+                if rng.random() < 0.5:
+                    ops.append(("setnum", cand, member_number()))
+                else:
+                    fresh = hi + rng.randint(3, 9)
+                    mover = rng.choice(members) if members else rng.randrange(n)
+                    ops.append(("setnum", mover, fresh))
+                    ops.append(("setnum", cand, fresh))
+        elif k == "remove" and rng.random() < 0.6:
+            # after remove(x) nobody has x's number: look it up, renumber the equal objects back and forth
+            x = op[1]
+            same = [j for j in range(n) if keys[j] == keys[x] and types[j]] or [x]
+            ops.append(rng.choice([("get", nums[x]), ("getitem", nums[x]), ("slice", nums[x], nums[x], None),
+                                   ("setnum", rng.choice(same), nums[x]), ("setnum", rng.choice(same), num),
+                                   ("request_number", nums[x], 1)]))
+        elif k == "fappend" and rng.random() < 0.5:
+            ops.append(("setnum", op[1], member_number()))
+        elif k == "slice_append" and rng.random() < 0.6:
+            # what was added to the slice is not in this collection: its number stays free here
+            ops.append(rng.choice([("get", nums[o]), ("request_number", nums[o], 1), ("setnum", o, member_number())]))
+    return {"kind": kind, "clink": clink, "nums": nums, "types": types, "keys": keys, "members": members,
+            "fmembers": fmembers, "qcopy": qcopy, "ops": ops}
 
 
-def premise_ok(case):
-    """The invariant is claimed for problem collections; a free-standing collection cannot see
-    a member being renumbered (the object has no pointer to it), so sequences that renumber a
-    *member* of a free-standing collection onto a number in use are outside the premise
-    (Coll.op_ok in the Coq statement).  Decided on the real objects."""
-    if case["clink"]:
+def setup_ok(case):
+    """the initial state can be built on the real side (unique numbers in both collections)"""
+    try:
+        World(case)
         return True
-    w = World(case)
-    for op in case["ops"]:
-        if op[0] == "setnum":
-            mem = w.members()
-            if op[1] in mem and op[2] in [w.number(m) for m in mem]:
-                return False
-        w.apply(op)
-    return True
+    except Exception:
+        return False
+
+
+def into_premise(cases):
+    """Drop, in every case, the SetNum operations that are outside the premise of the invariant theorem
+    (the renumbering, onto a number in use, of a member that is not linked to this collection's problem: a
+    free-standing collection, or a member another problem has taken over, cannot see it).  Decided by the
+    model (Coll.setnum_seen), in rounds; what is still outside after the rounds is cut off.
+    Returns (cases, model answers, number of operations dropped)."""
+    cases = [dict(c) for c in cases]
+    answers = ask(cases)
+    dropped = 0
+    for rnd in range(6):
+        todo = []
+        for i, a in enumerate(answers):
+            br = split_model(a)[1]
+            if br:
+                ops = list(cases[i]["ops"])
+                if rnd < 5:
+                    del ops[br[0]]
+                    dropped += 1
+                else:
+                    dropped += len(ops) - br[0]
+                    ops = ops[:br[0]]
+                cases[i]["ops"] = ops
+                todo.append(i)
+        if not todo:
+            break
+        new = ask([cases[i] for i in todo])
+        for i, a in zip(todo, new):
+            answers[i] = a
+    return cases, answers, dropped
 
 
 def shrink(case, failing):
-    """greedy delta-debugging over the op list, then over objects' membership"""
+    """greedy delta-debugging over the op list"""
     cur = dict(case)
     changed = True
     while changed:
@@ -378,21 +646,76 @@ def check_case(case):
     return None
 
 
+def fails_inside_premise(case):
+    return check_case(case) is not None and inside_premise(case)
+
+
+CACHE_POLICY_DIFFS = [0]
+
+
 def corr_mismatch(case, model_ans):
     real = run_real(case)
-    if real != canon_model(model_ans):
-        return {"real": real, "model": canon_model(model_ans)}
+    model = canon_model(model_ans)
+    if ghosts_only(real) != ghosts_only(model):
+        return {"real": real, "model": model}
+    if real != model:
+        CACHE_POLICY_DIFFS[0] += 1
+    return None
+
+
+def neighbours(case, rng, limit=700):
+    """the disagreeing case followed by one or two operations aimed at what it touched: every object gets
+    the numbers that are around, is added, removed, looked up"""
+    w = World(case)
+    for op in case["ops"]:
+        w.apply(op)
+    n = len(w.objs)
+    numbers = sorted(set(list(case["nums"]) + [w.number(i) for i in range(n)] +
+                         [x for op in case["ops"] for x in op[1:] if isinstance(x, int) and 0 < x < 60]))
+    touched = sorted(set([x for op in case["ops"] for x in (op[1] if isinstance(op[1], list) else op[1:2])
+                          if isinstance(x, int) and 0 <= x < n] if case["ops"] else []) | set(w.members()))
+    objs = touched or list(range(n))
+    fresh = max(numbers + [1]) + 3
+    pool = []
+    for i in objs:
+        if not case["types"][i]:
+            continue
+        pool += [("setnum", i, m) for m in numbers + [fresh]]
+        pool += [("append", i), ("remove", i), ("append_renumber", i, 1), ("extend", [i]), ("iadd", [i])]
+    pool += [("get", m) for m in numbers] + [("del", m) for m in numbers]
+    pool += [("request_number", m, 1) for m in numbers] + [("next_number", 1), ("pop", -1), ("slice", None, None, None)]
+    out = [dict(case, ops=list(case["ops"]) + [p]) for p in pool]
+    pairs = [(a, b) for a in pool for b in pool if a[0] in ("setnum", "append", "remove", "extend", "iadd")]
+    rng.shuffle(pairs)
+    out += [dict(case, ops=list(case["ops"]) + [a, b]) for a, b in pairs[:max(0, limit - len(out))]]
+    return out[:limit]
+
+
+def search_near(case, rng):
+    """lesson (ii): before a disagreement is reported without a failing input, evaluate the property on the
+    shrunk case and on its neighbours (inside the premise)"""
+    cands = [case] + neighbours(case, rng)
+    answers = ask(cands)
+    for c, a in zip(cands, answers):
+        if split_model(a)[1]:
+            continue
+        try:
+            if check_case(c) is not None:
+                return c
+        except Exception:
+            continue
     return None
 
 
 def replay(ctx, path):
-    case = json.load(open(path))
-    c = case.get("case", case)
-    c["ops"] = [tuple(o) for o in c["ops"]]
+    case = load_json(path)
+    c = norm_case(case.get("case", case))
+    ok, _ = vlib.coq_make(["Model/Coll.vo"])
     bad = check_case(c)
+    if bad is not None and not inside_premise(c):
+        bad = None
     if bad is None:
-        ok, _ = vlib.coq_make(["Model/Coll.vo"])
-        ans = vlib.model_ask("Coll", [request_of(c)])[0]
+        ans = ask([c])[0]
         mm = corr_mismatch(c, ans)
         if mm:
             bad = ("correspondence", mm)
@@ -410,11 +733,23 @@ def corpus_cases():
     if os.path.isdir(d):
         for f in sorted(os.listdir(d)):
             if f.endswith(".json"):
-                c = json.load(open(os.path.join(d, f)))
-                c = c.get("case", c)
-                c["ops"] = [tuple(o) for o in c["ops"]]
-                out.append((f, c))
+                c = load_json(os.path.join(d, f))
+                out.append((f, norm_case(c.get("case", c))))
     return out
+
+
+def replay_findings(ctx):
+    """(6) the committed replay of every open finding: does the defect still show on this tree?"""
+    for fd in ctx.findings:
+        if fd.get("status") != "open" or not fd.get("replay"):
+            continue
+        try:
+            c = load_json(os.path.join(vlib.VERIF, fd["replay"]))
+            c = norm_case(c.get("case", c))
+            fd["_reproduced"] = check_case(c) is not None
+        except Exception as e:  # noqa
+            fd["_reproduced"] = False
+            fd["_replay_error"] = repr(e)
 
 
 def run(ctx):
@@ -428,33 +763,44 @@ def run(ctx):
     cases = [c for _, c in corpus_cases()]
     n_corpus = len(cases)
     i = 0
-    skipped = 0
+    unbuildable = 0
     while len(cases) < n_corpus + n_cases:
         rng = random.Random(f"{ctx.seed}:C06:{i}")
         c = gen_case(rng, i)
         i += 1
-        if not premise_ok(c):
-            skipped += 1
+        if not setup_ok(c):
+            unbuildable += 1
             continue
         cases.append(c)
+    cases, answers, dropped = into_premise(cases)
     reqs = [request_of(c) for c in cases]
-    answers = vlib.model_ask("Coll", reqs)
     nx, bad = vlib.vm_crosscheck("Coll", reqs, answers, sample=120 if ctx.tier == "quick" else 600, seed=ctx.seed)
     if bad:
         ctx.broken_obligations.append({"obligation": "extraction cross-check (binary vs vm_compute)", "detail": bad[:3]})
 
-    dist = {"kinds": {}, "ops": {}, "results": {}, "linked": 0, "freestanding": 0, "op_count_hist": {}}
+    dist = {"kinds": {}, "ops": {}, "results": {}, "linked": 0, "freestanding": 0, "op_count_hist": {},
+            "second_problem": {"none": 0, "independent": 0, "deepcopy": 0}, "cases_with_equal_valued_objects": 0,
+            "remove_given_equal_non_member": 0, "candidates_linked_elsewhere": 0}
     corr_bad = 0
     first_corr = None
+    near = None
     for idx, (c, ans) in enumerate(zip(cases, answers)):
         ctx.cov["programs"] += 1
         ctx.count_case(reqs[idx], nontrivial=len(c["ops"]) >= 2)
         dist["kinds"][c["kind"]] = dist["kinds"].get(c["kind"], 0) + 1
         dist["linked" if c["clink"] else "freestanding"] += 1
+        dist["second_problem"]["deepcopy" if qcopy_ok(c) else "independent" if c["fmembers"] else "none"] += 1
+        if c["kind"] in VALUE_EQ_KINDS and len(set(c["keys"])) < len(c["keys"]):
+            dist["cases_with_equal_valued_objects"] += 1
+        dist["remove_given_equal_non_member"] += len(split_model(ans)[2])
         b = str(min(len(c["ops"]) // 10 * 10, 80))
         dist["op_count_hist"][b] = dist["op_count_hist"].get(b, 0) + 1
         for o in c["ops"]:
             dist["ops"][o[0]] = dist["ops"].get(o[0], 0) + 1
+            if o[0] in ("append", "append_renumber") and o[1] in c["fmembers"]:
+                dist["candidates_linked_elsewhere"] += 1
+            elif o[0] in ("extend", "iadd"):
+                dist["candidates_linked_elsewhere"] += sum(1 for x in o[1] if x in c["fmembers"])
         for r in ans.split("|")[0].split(";"):
             key = r.split(":")[1] if r.startswith("err:") else r.split(":")[0]
             dist["results"][key] = dist["results"].get(key, 0) + 1
@@ -464,9 +810,7 @@ def run(ctx):
         orc = check_case(c)
         ctx.cov["disagreements_checked"] += 1
         if orc is not None:
-            def failing(cc):
-                return check_case(cc) is not None
-            small = shrink(c, failing)
+            small = shrink(c, fails_inside_premise)
             ctx.fail({"kind": "oracle", "case": small, "detail": check_case(small)[1], "request": request_of(small)})
             if len(ctx.violations) >= 5:
                 break
@@ -474,22 +818,39 @@ def run(ctx):
             corr_bad += 1
             if first_corr is None:
                 def failing2(cc):
-                    a = vlib.model_ask("Coll", [request_of(cc)])[0]
+                    a = ask([cc])[0]
                     return corr_mismatch(cc, a) is not None and check_case(cc) is None
                 small = shrink(c, failing2)
-                a = vlib.model_ask("Coll", [request_of(small)])[0]
+                a = ask([small])[0]
                 first_corr = {"case": small, "request": request_of(small), "diff": corr_mismatch(small, a)}
+            if near is None and corr_bad <= 8:
+                # lesson (ii): look for a failing input around the disagreement before giving up
+                def failing3(cc):
+                    return corr_mismatch(cc, ask([cc])[0]) is not None and check_case(cc) is None
+                sm = first_corr["case"] if corr_bad == 1 else shrink(c, failing3)
+                near = search_near(sm, random.Random(f"{ctx.seed}:C06:near:{idx}"))
+                if near is not None:
+                    small = shrink(near, fails_inside_premise)
+                    ctx.fail({"kind": "oracle", "found": "next to a correspondence disagreement", "case": small,
+                              "detail": check_case(small)[1], "request": request_of(small)})
     if corr_bad:
         ctx.broken_obligations.append({
             "obligation": "correspondence Coll.step vs montepy NumberedObjectCollection",
             "detail": {"disagreeing_cases": corr_bad, "first_shrunk": first_corr}})
 
+    replay_findings(ctx)
+
     assumptions = [
-        "objects offered to a collection are pairwise value-distinct, so Python == on Surface/Material is identity",
+        "Python == on objects: Surface.__eq__ / Material.__eq__ compare the value and the number (Coll.oeq with the "
+        "generated value classes); Cell, Transform, Universe compare by identity; objects of a wrong class are offered "
+        "to append/extend/+=/[]= only (== against another class is outside the model)",
         "request_number / append_renumber are called with step != 0 (step 0 loops forever on a used number; "
         "the model reports OutOfFuel, the generator does not produce it)",
-        "free-standing collections: sequences that renumber a member onto a number in use are outside the "
-        "premise (the object cannot see the collection); %d generated sequences skipped for that reason" % skipped,
+        "premise of the invariant (Coll.setnum_seen, decided by the model, C06_premise_decided): a member that is not "
+        "linked to this collection's problem - free-standing collection, or member taken over by another problem's "
+        "collection - is not renumbered onto a number in use (the object cannot see the collection); "
+        "%d generated operations dropped for that reason" % dropped,
+        "one other problem per case; its collection is only appended to (fappend) and asked by number setters",
     ]
     tb = vlib.KERNEL_TB + [
         "modelled, not verified: montepy/numbered_object_collection.py and the number setters of Cell, Surface, "
@@ -498,7 +859,9 @@ def run(ctx):
     ]
     return ctx.finish(
         tb, assumptions,
-        "cases = corpus + seeded random op sequences over 5 collection kinds (linked / free-standing); "
-        "distinct = distinct request strings; non-trivial = at least 2 operations",
-        extra={"input_distribution": dist, "corpus_cases": n_corpus, "skipped_outside_premise": skipped},
+        "cases = corpus + seeded random op sequences over 5 collection kinds (linked / free-standing, with a second "
+        "problem: none / independent / deep copy); distinct = distinct request strings; non-trivial = at least 2 operations",
+        extra={"input_distribution": dist, "corpus_cases": n_corpus, "ops_dropped_outside_premise": dropped,
+               "unbuildable_initial_states": unbuildable,
+               "cases_whose_member_cache_entries_differ_from_the_model": CACHE_POLICY_DIFFS[0]},
     )
